@@ -477,3 +477,90 @@ def enumerate_paths(cfg: CFG, src: Node, terminal, max_paths=2000, kinds=('norma
                 continue
             stack.append((s, path + [s], seen | {id(s)}))
     return out
+
+
+# ---- reaching definitions of a local name (flow-sensitive deref) -------------
+def _binding_stmts(fn_node, name):
+    from .astutil import enclosing_stmt, walk_local
+
+    out = []
+    for n in walk_local(fn_node):
+        if isinstance(n, ast.Name) and n.id == name and isinstance(n.ctx, (ast.Store, ast.Del)):
+            st = enclosing_stmt(n)
+            if st is not None and all(st is not x for x in out):
+                out.append(st)
+        elif isinstance(n, ast.NamedExpr) and n.target.id == name:
+            st = enclosing_stmt(n)
+            if st is not None and all(st is not x for x in out):
+                out.append(st)
+        elif isinstance(n, ast.ExceptHandler) and n.name == name:
+            out.append(n)
+    return out
+
+
+def reaching_defs(fn_node, use_node):
+    """binding statements of the local `use_node.id` that reach the statement using it (may-reach over the
+    statement CFG); the string 'entry' stands for "unbound here / a parameter"."""
+    from .astutil import enclosing_stmt
+
+    cfg = cfg_of(fn_node)
+    name = use_node.id
+    use_stmt = enclosing_stmt(use_node)
+    use_nodes = cfg.nodes_of(use_stmt, ('stmt', 'test', 'loop', 'with_enter', 'handler'))
+    if not use_nodes:
+        return None
+    defs = _binding_stmts(fn_node, name)
+    dnodes = {id(d): cfg.nodes_of(d, ('stmt', 'test', 'loop', 'with_enter', 'handler')) for d in defs}
+    out = []
+    for d in defs:
+        others = [n for o in defs if o is not d for n in dnodes[id(o)]]
+        starts = cfg.nodes_of(d, ('ok',)) or dnodes[id(d)]
+        # the use statement may itself rebind the name (x = f(x)); it still reads the incoming value
+        av = [n for n in others if all(n is not u for u in use_nodes)]
+        if d is use_stmt:
+            # reaches itself only around a loop
+            if any(cfg.path(s, use_nodes, avoid=av) is not None and len(cfg.path(s, use_nodes, avoid=av)) > 1 for s in starts):
+                out.append(d)
+            continue
+        if any(cfg.path(s, use_nodes, avoid=av) is not None for s in starts):
+            out.append(d)
+    allnodes = [n for d in defs for n in dnodes[id(d)] if all(n is not u for u in use_nodes)]
+    if cfg.path(cfg.entry, use_nodes, avoid=allnodes) is not None:
+        out.append('entry')
+    return out
+
+
+def deref_at(fn_node, expr, depth=4):
+    """like astutil.deref, but flow-sensitive: a name stands for an expression when exactly one plain
+    assignment `name = expr` reaches the use"""
+    for _ in range(depth):
+        if isinstance(expr, ast.NamedExpr):
+            expr = expr.value
+            continue
+        if isinstance(expr, ast.Name) and isinstance(expr.ctx, ast.Load):
+            rd = reaching_defs(fn_node, expr)
+            if rd and len(rd) == 2 and all(isinstance(d, ast.Assign) and len(d.targets) == 1 and isinstance(d.targets[0], ast.Name) for d in rd):
+                # x assigned in both arms of one if/else: stands for the conditional expression
+                from .astutil import parent
+
+                pa, pb = parent(rd[0]), parent(rd[1])
+                if pa is pb and isinstance(pa, ast.If):
+                    a_in_body = any(x is rd[0] for x in pa.body)
+                    b_in_body = any(x is rd[1] for x in pa.body)
+                    if a_in_body != b_in_body and (a_in_body or any(x is rd[0] for x in pa.orelse)) and (b_in_body or any(x is rd[1] for x in pa.orelse)):
+                        body, orelse = (rd[0].value, rd[1].value) if a_in_body else (rd[1].value, rd[0].value)
+                        e = ast.IfExp(test=pa.test, body=body, orelse=orelse)
+                        e._parent = parent(expr)
+                        return ast.copy_location(e, expr)
+            if not rd or len(rd) != 1 or rd[0] == 'entry':
+                return expr
+            d = rd[0]
+            if isinstance(d, ast.Assign) and len(d.targets) == 1 and isinstance(d.targets[0], ast.Name):
+                expr = d.value
+                continue
+            if isinstance(d, ast.AnnAssign) and d.value is not None:
+                expr = d.value
+                continue
+            return expr
+        break
+    return expr
